@@ -291,6 +291,8 @@ class EvaluateTaskRetry(Unit):
         "C13.etr.default_condition": {"props": ["C13"], "text":
             "with no `when`, retry iff the execution abended (and the bound allows); with `when`, iff it evaluates truthy"},
         "C13.etr.no_policy": {"props": ["C13"], "text": "no retry entry in the record => never retried"},
+        "C13.etr.reopenable": {"props": ["C13", "C15"], "text":
+            "a retry is granted only from a status the task table can reopen (succeeded / failed), so the retry event always makes progress"},
         "C11.etr.raises_only_from_when": {"props": ["C11", "C13"], "text":
             "_evaluate_task_retry raises only if evaluating the `when` expression raises"},
     }
@@ -354,11 +356,13 @@ class EvaluateTaskRetry(Unit):
                 return
             ctx.oblige("C13.etr.no_policy", True, None, info)
             ctx.oblige("C13.etr.bound", z3.Implies(rz, tally.z < count.z), None, info)
+            reopenable = status_c in [st.SUCCEEDED, st.FAILED]
+            ctx.oblige("C13.etr.reopenable", z3.Implies(rz, z3.BoolVal(reopenable)), None, info)
             abended = status_c in [st.FAILED, st.EXPIRED, st.ABANDONED]
             if when_none:
-                want = z3.And(tally.z < count.z, z3.BoolVal(abended))
+                want = z3.And(tally.z < count.z, z3.BoolVal(abended and reopenable))
             else:
-                want = z3.And(tally.z < count.z, ev_truthy.z)
+                want = z3.And(tally.z < count.z, ev_truthy.z, z3.BoolVal(reopenable))
             ctx.oblige("C13.etr.default_condition", rz == want, None, info)
             ctx.crosscheck({"result": res})
 
